@@ -9,6 +9,8 @@
           25 = C17_select: a returned id is not in the requested subset
           26 = C17_select: for some requested cluster the returned spikes are neither all eligible
                ones (count None / <= 0 / >= their number) nor exactly the requested count
+          27 = C17_kept_densest: the observed chunks_kept are not the densest regular selection that
+               fits in n_chunks_kept (the stride is not the least one keeping <= n_chunks_kept chunks)
           3  = input outside the stated regime (harness bug) *)
 From Coq Require Import ZArith List Lia Bool.
 From PV Require Export Base.PySlice Base.NpSearch C17.Model C17.Spec.
@@ -44,7 +46,8 @@ Definition check (c : case) : list Z :=
   | InKept grid k, o =>
       if negb (grid_ok grid k) then [3] else
       match o with
-      | ObsKept kept => flag 1 (opt_eqb (chunks_kept grid k) kept) ++ flag 21 (kept_spec_b grid k kept)
+      | ObsKept kept => flag 1 (opt_eqb (chunks_kept grid k) kept) ++ flag 21 (kept_spec_b grid k kept) ++
+                        flag 27 (kept_dense_b grid k kept)
       | _ => [1; 21]
       end
   | InSelect times clusters grid k n req sc sub, o =>
@@ -63,7 +66,8 @@ Definition check (c : case) : list Z :=
           flag 23 (all (cl23_cluster clusters req)) ++
           flag 24 (all (cl24_chunk times ivs sc)) ++
           flag 25 (all (cl25_subset sub)) ++
-          flag 26 (all (cl26_count times clusters ivs sc sub n req))
+          flag 26 (all (cl26_count times clusters ivs sc sub n req)) ++
+          flag 27 (kept_dense_b grid k kept)
       | _ => [1; 26]
       end
   | InRoute samples templates grid nst, o =>
